@@ -332,7 +332,12 @@ def evaluate(ctx, cases, asan=None):
         if any(o[0] in ("OGc", "OAllocNew", "OAllocNewStruct", "OFromBuffer", "ONewHandle") for o in ops):
             ctx.nontrivial(ops)
         if bad:
-            small = c if ctx.replay_mode else shrink(ctx, c, lambda cand, rr: bool(check_history(cand, rr)))
+            nshrunk = ctx.extra.setdefault("shrunk", 0)
+            if ctx.replay_mode or nshrunk >= 2:
+                small = c
+            else:
+                ctx.extra["shrunk"] = nshrunk + 1
+                small = shrink(ctx, c, lambda cand, rr: bool(check_history(cand, rr)))
             out2, _ = s.run_worker("c21_worker.py", dict(histories=[small["ops"]]), timeout=120)
             msg = check_history(small["ops"], out2["results"][0]) if out2 and "trace" in out2["results"][0] else bad
             ctx.violation(small, "; ".join((msg or bad)[:3]))
